@@ -108,6 +108,45 @@ func counterReadNotFailSoft(c *Ctx, rule string, rd nonceSite, who string) {
 	}
 }
 
+// inlinedCounterValue: the term of the uint64 decoded from the result of the given RetrieveValue call in its own function:
+// Uint64(SetBytes(<bytes read>)), possibly merged with the constant 0 of the "nothing stored" branch.
+func inlinedCounterValue(e *Env, read *ssa.Call) string {
+	rt := e.Term(read) + "#0"
+	derives := func(v ssa.Value) bool {
+		call, ok := v.(*ssa.Call)
+		return ok && bigMethod(call) == "Uint64" && strings.Contains(e.Term(call), rt)
+	}
+	for _, b := range e.Fn.Blocks {
+		for _, in := range b.Instrs {
+			switch v := in.(type) {
+			case *ssa.Phi:
+				n, ok := 0, true
+				for _, ed := range v.Edges {
+					if k, isK := constInt(ed); isK && k == 0 {
+						continue
+					}
+					if derives(ed) {
+						n++
+						continue
+					}
+					ok = false
+				}
+				if ok && n > 0 && isInteger(v.Type()) {
+					return e.Term(v)
+				}
+			}
+		}
+	}
+	for _, b := range e.Fn.Blocks {
+		for _, in := range b.Instrs {
+			if v, ok := in.(*ssa.Call); ok && derives(v) {
+				return e.Term(v)
+			}
+		}
+	}
+	return ""
+}
+
 func c07r1(c *Ctx) {
 	const rule = "C07-R1"
 	c.Rule(rule, "create: nonce = stored counter + 1 is the metadata nonce, the persisted counter, the return datum and the log topic", 7)
@@ -142,11 +181,17 @@ func c07r1(c *Ctx) {
 			Detail: fmt.Sprintf("read (%s, %s) but write (%s, %s); expected sender account and Arguments[0] on both", rd.acct, rd.token, wr.acct, wr.token)})
 	}
 	rc := counterReadCall(r.Entry, rd)
-	if rc == nil {
+	readRes := ""
+	if rc != nil {
+		readRes = e.Term(rc) + "#0"
+	} else if rd.s.In.Parent() == r.Entry {
+		// the read is inlined into the entry point: the counter is the number decoded from the bytes read (0 when there are none)
+		readRes = inlinedCounterValue(e, rd.s.In.(*ssa.Call))
+	}
+	if readRes == "" {
 		c.Fail(rule, "undecided", FuncName(r.Entry), "counter read result", pos, "cannot identify the value returned by the counter read")
 		return
 	}
-	readRes := e.Term(rc) + "#0"
 	next := leAtom(readRes).addK(1).String()
 	want := "Bytes(bigU(" + next + "))"
 	if wr.val == want {
@@ -201,6 +246,24 @@ func c07r1(c *Ctx) {
 			}
 		}
 	}
+	if _, found := uses["log topic"]; !found {
+		// the log entry built in place or in another helper: the Topics literal carries Bytes(counter) as an element
+		isTopics := func(in ssa.Instruction) (string, bool) {
+			if st, ok := in.(*ssa.Store); ok {
+				if fa, ok := st.Addr.(*ssa.FieldAddr); ok && isFieldOf(fa, "LogEntry", "Topics") {
+					return "Topics", true
+				}
+			}
+			return "", false
+		}
+		for _, s := range c.P.EffectSites(r.Entry, "logtopics", isTopics) {
+			for _, el := range sliceLiteralElems(s.Env, s.In.(*ssa.Store).Val) {
+				if strings.HasPrefix(el, "Bytes(bigU(") {
+					uses["log topic"] = strings.TrimSuffix(strings.TrimPrefix(el, "Bytes(bigU("), "))")
+				}
+			}
+		}
+	}
 	for _, what := range []string{"metadata nonce", "return datum", "log topic"} {
 		got, ok := uses[what]
 		wantV := next
@@ -217,6 +280,29 @@ func c07r1(c *Ctx) {
 				Detail: "the " + what + " is " + got + ", not the value persisted as the new counter (" + wantV + ")"})
 		}
 	}
+}
+
+// sliceLiteralElems: the terms of the elements of a slice literal (in index order of the stores found).
+func sliceLiteralElems(e *Env, v ssa.Value) []string {
+	sl, ok := v.(*ssa.Slice)
+	if !ok {
+		return nil
+	}
+	al, ok := sl.X.(*ssa.Alloc)
+	if !ok {
+		return nil
+	}
+	var out []string
+	for _, r := range *al.Referrers() {
+		if ia, ok := r.(*ssa.IndexAddr); ok {
+			for _, rr := range *ia.Referrers() {
+				if st, ok := rr.(*ssa.Store); ok {
+					out = append(out, e.Term(st.Val))
+				}
+			}
+		}
+	}
+	return out
 }
 
 // sliceLiteralElem: the term of the single element of a one-element slice literal.
